@@ -206,12 +206,81 @@ func genCaseSubmitVsConnect(c *Ctx) {
 	c.Distinct(fmt.Sprintf("submitconnect-%d-%d", c.Seed, c.nOps))
 }
 
+// orphanWithStoredParent: a block waiting in the orphan pool although its parent is stored
+// (after all calls have returned and the node is idle, nothing will ever connect it).
+func (nc *nodeCase) orphanWithStoredParent(n *node) string {
+	hashes, _ := n.chain.VerifNodeOrphans()
+	for _, h := range hashes {
+		b := nc.nm.blocks[nc.nm.name(h)]
+		if b == nil {
+			continue
+		}
+		if _, err := n.store.GetBlockHeader(&b.PreviousBlockHash); err == nil {
+			return nc.nm.name(h)
+		}
+	}
+	return ""
+}
+
+// genCaseChildVsParent: a block and its child are delivered at the same moment from two
+// goroutines (8 fresh nodes per case). Whatever the interleaving, once both calls have returned
+// the child must be connected: "parent not stored, park the block" and "parent stored, collect
+// the blocks waiting for it" must be atomic with respect to each other.
+func genCaseChildVsParent(c *Ctx) {
+	for attempt := 0; attempt < 8 && !concWedged; attempt++ {
+		nc := newNodeCase(c, "pool", 2, 3, -1, 2)
+		n := nc.sut
+		tip := "b0"
+		var names []string
+		for i := 0; i < 4; i++ {
+			tip = nc.defBlock(tip, 0, 0, nil)
+			names = append(names, tip)
+		}
+		n.processBlock(nc.nm.blocks[names[0]])
+		// names[1] (parent) and names[2], names[3] (child, grandchild) arrive together
+		done := make(chan struct{}, 3)
+		for k := 1; k < 4; k++ {
+			blk := cloneBlock(nc.nm.blocks[names[k]])
+			delay := time.Duration(c.Rng.Intn(300)) * time.Microsecond
+			if k == 1 {
+				delay = time.Duration(c.Rng.Intn(150)) * time.Microsecond
+			}
+			go func() {
+				time.Sleep(delay)
+				n.chain.ProcessBlock(blk)
+				done <- struct{}{}
+			}()
+		}
+		for k := 0; k < 3 && !concWedged; k++ {
+			select {
+			case <-done:
+			case <-time.After(30 * time.Second):
+				c.Fail("C37:call-does-not-return", "a block and its descendants delivered concurrently: ProcessBlock did not return within 30 s")
+				concWedged = true
+			}
+		}
+		if !concWedged {
+			n.quiesce()
+			if o := nc.orphanWithStoredParent(n); o != "" {
+				c.Fail("C37:atomicity:orphan-with-stored-parent", fmt.Sprintf("block %s and its descendants delivered concurrently: all calls returned, node idle, %s waits in the orphan pool although its parent is stored (best block %s)", names[1], o, nc.nm.name(n.chain.BestBlockHeader().Hash())))
+			}
+			c.Count("child-vs-parent-attempts")
+		}
+		nc.emit("conc child-vs-parent", "ok")
+		nc.close()
+	}
+	c.Distinct(fmt.Sprintf("childparent-%d-%d", c.Seed, c.nOps))
+}
+
 func genCaseConc(c *Ctx, mode string) {
 	rng := c.Rng
-	// the scenario is chosen by the case number, so that every window of 7 consecutive cases
-	// contains each directed scenario (2x flip-vs-block, cached votes, submit-vs-connect) and
-	// three general workloads
-	switch curCase % 7 {
+	// the scenario is chosen by the case number, so that every window of 8 consecutive cases
+	// contains each directed scenario (2x flip-vs-block, cached votes, submit-vs-connect,
+	// child-vs-parent) and three general workloads
+	switch curCase % 8 {
+	case 7:
+		genCaseChildVsParent(c)
+		return
 	case 6:
 		genCaseSubmitVsConnect(c)
 		return
@@ -429,6 +498,9 @@ func genCaseConc(c *Ctx, mode string) {
 	// chain back to a stale tip and nothing repairs that until the next block arrives)
 	if bh, fc := n.chain.BestBlockHeader().Hash(), n.chain.VerifNodeCasper().BestChain(); bh != fc {
 		c.Fail("C37:stale-rollback", fmt.Sprintf("after the concurrent run (all calls returned, node idle): best block %s but the fork choice is %s", nc.nm.name(bh), nc.nm.name(fc)))
+	}
+	if o := nc.orphanWithStoredParent(n); o != "" {
+		c.Fail("C37:atomicity:orphan-with-stored-parent", fmt.Sprintf("after the concurrent run (all calls returned, node idle): %s waits in the orphan pool although its parent is stored", o))
 	}
 	// ... and the pool holds no transaction of a main-chain block (a submission racing with the
 	// connection of its block must not leave it behind)
